@@ -126,6 +126,17 @@ def judge(c, d, out, rc, err):
                     key = "bytes"
                 add("save-after-load", "save-after-load:%s:%s" % (fam, key),
                     "state written after step %d (%s), loaded in a fresh instance and written again: %s" % (it0 + K, fmt, det), K, fmt)
+    # both formats lead to the same final state
+    if "text" in c["fmts"] and "binary" in c["fmts"] and not F:
+        for K in c["Ks"]:
+            ft = pre + "B_%d_text.colvars.state" % K
+            fb = pre + "B_%d_binary.colvars.state" % K
+            ds = R.diff_states(ft, fb)
+            if ds:
+                add("format", "format:%s:state:%s" % (fam, ds[0]),
+                    "stop after step %d: the run resumed from the text state ends with `%s` %r, the one resumed from the "
+                    "binary state with %r" % (it0 + K, ds[0], ds[1], ds[2]), K, None)
+                break
     return F
 
 
